@@ -83,7 +83,7 @@ def signature(case, idx, verdict):
 def check(ctx):
     # bodies of TrustAnchorProxy::process_signer_response / process_make_signer_request regenerated from the source;
     # C15Src: generated definitions = the model functions response_accepted_iff / one_open_request are about
-    vlib.translate(ctx, [("pure_fns:C15", "PureFns.lean")])
+    vlib.translate(ctx, [("pure_fns:C15", "PureFnsC15.lean")])
     vlib.prove(ctx, ["KrillModel.Props.C15", "KrillModel.Props.C15Src"])
     pc.private_kmodel(ctx)
     found = False
